@@ -14,7 +14,7 @@ structure AccRel (P : Ev → Option Ev) (cm : Mask) (aF aM : KAcc) : Prop where
   evs : aM.evs = aF.evs.filterMap P
   frames : aM.frames = if cm .stackMapTable then aF.frames else none
   lines : aM.lines = if cm .lineNumberTable then aF.lines else []
-  locals : aM.locals = aF.locals.filter (fun x => if x.1 then cm .lvt else cm .lvtt)
+  locals : aM.locals = lvProj cm aF.locals
 
 theorem accRel_init (P : Ev → Option Ev) (cm : Mask) : AccRel P cm {} {} :=
   ⟨rfl, by simp, by simp, rfl⟩
@@ -39,10 +39,10 @@ theorem accAdd_rel_on {P : Ev → Option Ev} {cm : Mask} {i : Nat} {a : Attr} {a
     exact ⟨_, rfl, ⟨r1, r2, by simp [r3, hon], r4⟩⟩
   case lvt =>
     simp at h; subst h
-    exact ⟨_, rfl, ⟨r1, r2, r3, by simp [r4, hon, List.filter_append]⟩⟩
+    exact ⟨_, rfl, ⟨r1, r2, r3, by simp [r4, hon, lvProj_append, lvProj_d]⟩⟩
   case lvtt =>
     simp at h; subst h
-    exact ⟨_, rfl, ⟨r1, r2, r3, by simp [r4, hon, List.filter_append]⟩⟩
+    exact ⟨_, rfl, ⟨r1, r2, r3, by simp [r4, hon, lvProj_append, lvProj_s]⟩⟩
   all_goals
     simp at h; subst h
     exact ⟨_, rfl, ⟨by simp [r1, List.filterMap_append, hP, keepIf, evBit, hon], r2, r3, r4⟩⟩
@@ -64,10 +64,10 @@ theorem accAdd_rel_off {P : Ev → Option Ev} {cm : Mask} {i : Nat} {a : Attr} {
     exact ⟨r1, r2, by simp [r3, hoff], r4⟩
   case lvt =>
     simp at h; subst h
-    exact ⟨r1, r2, r3, by simp [r4, hoff, List.filter_append]⟩
+    exact ⟨r1, r2, r3, by simp [r4, hoff, lvProj_append, lvProj_d]⟩
   case lvtt =>
     simp at h; subst h
-    exact ⟨r1, r2, r3, by simp [r4, hoff, List.filter_append]⟩
+    exact ⟨r1, r2, r3, by simp [r4, hoff, lvProj_append, lvProj_s]⟩
   all_goals
     simp at h; subst h
     exact ⟨by simp [r1, List.filterMap_append, hP, keepIf, evBit, hoff], r2, r3, r4⟩
@@ -172,7 +172,7 @@ theorem codeTail_proj {cfg : Cfg} {i : Nat} {c : Code} {cm : Mask} {aF aM : KAcc
   · rw [r4]
     cases hh : aF.locals.isEmpty
     · simp only [hh, Bool.false_eq_true, if_false, List.filterMap_cons, proj_codeLocals, hcm]
-      cases hf : (aF.locals.filter (fun x => if x.1 then cm .lvt else cm .lvtt)).isEmpty
+      cases hf : (lvProj cm aF.locals).isEmpty
       · simp [hf]
       · simp [hf]
     · have : aF.locals = [] := by simpa using hh
@@ -183,7 +183,7 @@ theorem codeTail_proj {cfg : Cfg} {i : Nat} {c : Code} {cm : Mask} {aF aM : KAcc
 def fullMc : MethodCfg := { mask := allMask, code := true, codeV := some allMask }
 
 theorem readCode_proj {avail : Nat} {cfg : Cfg} {m : Mask} {mc : MethodCfg} {i : Nat}
-    (hc : cfg.cls = some m) (hm : cfg.method i = some mc) {c : Code} {p p' : Nat} {evs : List Ev}
+    (hc : cfg.cls = some m) (hmi : cfg.methodsI = true) (hm : cfg.method i = some mc) {c : Code} {p p' : Nat} {evs : List Ev}
     (hx : c.exact = true) (h : readCode avail i fullMc c p = .ok (p', evs)) :
     readCode avail i mc c p = .ok (p', evs.filterMap (proj cfg)) := by
   have hpos := readCode_pos hx h
@@ -204,19 +204,19 @@ theorem readCode_proj {avail : Nat} {cfg : Cfg} {m : Mask} {mc : MethodCfg} {i :
   | false =>
     have hn : codeMaskOf cfg i = none := by simp [codeMaskOf, hc, hm, hcode]
     have := codeTail_drop (c := c) hn hshape
-    simp [hpos, hc, hm, hcode, hn, keepIf, List.filterMap_append, this]
+    simp [hpos, hc, hmi, hm, hcode, hn, keepIf, List.filterMap_append, this]
   | true =>
     cases hcv : mc.codeV with
     | none =>
       have hn : codeMaskOf cfg i = none := by simp [codeMaskOf, hc, hm, hcode, hcv]
       have := codeTail_drop (c := c) hn hshape
-      simp [hpos, hc, hm, hcode, hn, keepIf, List.filterMap_append, this]
+      simp [hpos, hc, hmi, hm, hcode, hn, keepIf, List.filterMap_append, this]
     | some cm =>
-      have hcm : codeMaskOf cfg i = some cm := by simp [codeMaskOf, hc, hm, hcode, hcv]
+      have hcm : codeMaskOf cfg i = some cm := by simp [codeMaskOf, hc, hmi, hm, hcode, hcv]
       obtain ⟨aM', hres, hrel⟩ := readCodeAttrs_proj (P := proj cfg) (cm := cm)
         (by intro unk k pay; simp [hcm]) _ _ _ _ _ _ hx'.2 (accRel_init _ _) hr'
       have ht := codeTail_proj (c := c) hcm hrel
-      simp [hq1, hq2, hres, hex, bind, Except.bind, pure_ok, hc, hm, hcode, hcm, keepIf, List.filterMap_append, ht]
+      simp [hq1, hq2, hres, hex, bind, Except.bind, pure_ok, hc, hmi, hm, hcode, hcm, keepIf, List.filterMap_append, ht]
 
 /-- events of the `Code` arm vanish for a visitor that receives nothing of method `i` -/
 theorem readCode_drop {avail : Nat} {cfg : Cfg} {i : Nat} {mc : MethodCfg}
@@ -243,7 +243,7 @@ theorem readCode_drop {avail : Nat} {cfg : Cfg} {i : Nat} {mc : MethodCfg}
 /-! ## methods -/
 
 theorem readMethodAttrs_proj {avail : Nat} {cfg : Cfg} {m : Mask} {mc : MethodCfg} {i : Nat}
-    (hc : cfg.cls = some m) (hm : cfg.method i = some mc) :
+    (hc : cfg.cls = some m) (hmi : cfg.methodsI = true) (hm : cfg.method i = some mc) :
     ∀ (as : List MAttr) (p p' : Nat) (evs : List Ev) (d sy : Bool),
       as.all mattrExact = true → readMethodAttrs avail i fullMc as p = .ok (p', evs, d, sy) →
       readMethodAttrs avail i mc as p = .ok (p', evs.filterMap (proj cfg), d, sy) := by
@@ -263,7 +263,7 @@ theorem readMethodAttrs_proj {avail : Nat} {cfg : Cfg} {m : Mask} {mc : MethodCf
       simp [pure_ok] at h
       obtain ⟨rfl, rfl, rfl, rfl⟩ := h
       have h1 := leaf1_proj (m := mc.mask) (proj cfg)
-        (by intro unk k pay; simp [hc, hm]) (by simpa [mattrExact] using hx.1) hs
+        (by intro unk k pay; simp [hc, hmi, hm]) (by simpa [mattrExact] using hx.1) hs
       have h2 := ih _ _ _ _ _ hx.2 hr'
       simp [hq, h1, h2, bind, Except.bind, pure_ok, List.filterMap_append]
     | code c =>
@@ -275,7 +275,7 @@ theorem readMethodAttrs_proj {avail : Nat} {cfg : Cfg} {m : Mask} {mc : MethodCf
       obtain ⟨p2, evs2, d2, sy2⟩ := r'
       simp [pure_ok] at h
       obtain ⟨rfl, rfl, rfl, rfl⟩ := h
-      have h1 := readCode_proj hc hm (by simpa [mattrExact] using hx.1) hr1
+      have h1 := readCode_proj hc hmi hm (by simpa [mattrExact] using hx.1) hr1
       have h2 := ih _ _ _ _ _ hx.2 hr'
       simp [hq, h1, h2, bind, Except.bind, pure_ok, List.filterMap_append]
 
@@ -350,30 +350,31 @@ theorem readMethodAttrs_drop {avail : Nat} {cfg : Cfg} {i : Nat} {mc : MethodCfg
 
 theorem full_method (i : Nat) : full.method i = some fullMc := rfl
 
-theorem readMethod_proj {avail : Nat} {cfg : Cfg} {m : Mask} (hc : cfg.cls = some m)
+theorem readMethod_proj {avail : Nat} {cfg : Cfg} {m : Mask} (hc : cfg.cls = some m) (hmi : cfg.methodsI = true)
     {i : Nat} {mt : Method} {p p' : Nat} {evs : List Ev}
     (hx : mt.attrs.all mattrExact = true) (h : readMethod avail full i mt p = .ok (p', evs)) :
     readMethod avail cfg i mt p = .ok (p', evs.filterMap (proj cfg)) := by
   simp only [readMethod, full_method] at h
   obtain ⟨q, hq, h⟩ := bind_ok.mp h
+  obtain ⟨_, hn, h⟩ := bind_ok.mp h
   obtain ⟨q2, hq2, h⟩ := bind_ok.mp h
   obtain ⟨r', hr', h⟩ := bind_ok.mp h
   obtain ⟨p2, evs2, d2, sy2⟩ := r'
   simp [pure_ok] at h
   obtain ⟨rfl, rfl⟩ := h
-  simp only [readMethod, hq, bind, Except.bind]
+  simp only [readMethod, hq, hn, bind, Except.bind]
   cases hcm : cfg.method i with
   | none =>
     have hs := readMethodAttrs_skip _ _ _ hx hr'
     have hd := readMethodAttrs_drop (cfg := cfg) (i := i)
       (by intro unk k pay; simp [hc, hcm]) (by simp [hc, hcm]) (by simp [codeMaskOf, hc, hcm]) _ _ _ hr'
     simp only at hs hd
-    simp [skipAttrs, hq2, hs, bind, Except.bind, pure_ok, List.filterMap_append, hc, hcm, keepIf, hd]
+    simp [skipAttrs, hq2, hs, bind, Except.bind, pure_ok, List.filterMap_append, hc, hmi, hcm, keepIf, hd]
   | some mc =>
-    have h1 := readMethodAttrs_proj hc hcm _ _ _ _ _ _ hx hr'
-    simp [hq2, h1, bind, Except.bind, pure_ok, List.filterMap_append, hc, hcm, keepIf]
+    have h1 := readMethodAttrs_proj hc hmi hcm _ _ _ _ _ _ hx hr'
+    simp [hq2, h1, bind, Except.bind, pure_ok, List.filterMap_append, hc, hmi, hcm, keepIf]
 
-theorem readMethods_proj {avail : Nat} {cfg : Cfg} {m : Mask} (hc : cfg.cls = some m) :
+theorem readMethods_proj {avail : Nat} {cfg : Cfg} {m : Mask} (hc : cfg.cls = some m) (hmi : cfg.methodsI = true) :
     ∀ (ms : List Method) (i p p' : Nat) (evs : List Ev),
       ms.all (fun m => m.attrs.all mattrExact) = true →
       readMethods avail full i ms p = .ok (p', evs) →
@@ -391,7 +392,7 @@ theorem readMethods_proj {avail : Nat} {cfg : Cfg} {m : Mask} (hc : cfg.cls = so
     obtain ⟨p2, e2⟩ := r2
     simp [pure_ok] at h
     obtain ⟨rfl, rfl⟩ := h
-    have a1 := readMethod_proj hc hx.1 h1
+    have a1 := readMethod_proj hc hmi hx.1 h1
     have a2 := ih _ _ _ _ hx.2 h2
     simp [a1, a2, bind, Except.bind, pure_ok, List.filterMap_append]
 
